@@ -374,8 +374,18 @@ func checkDiagnostics(w world.World, tracer string) error {
 	ctx := h.Context(tracer)
 	anyDiag := false
 	poisoned := false
+	late := tracer == "late" || tracer == "early"
 	for i, c := range w.Script {
 		logStart := len(h.Log)
+		if late {
+			// the tracer belongs to the call: the first call comes without one and the later ones with one ("late"), or the other way round
+			first := i == 0
+			if (tracer == "late") == first {
+				ctx, tracerHears = h.Context("none"), false
+			} else {
+				ctx, tracerHears = h.Context("full"), true
+			}
+		}
 		res := run.DoCall(ctx, c)
 		if poisoned {
 			if res.Panicked == nil {
@@ -430,6 +440,9 @@ func checkDiagnostics(w world.World, tracer string) error {
 		if strings.Join(got, "\n") != strings.Join(want, "\n") {
 			return fmt.Errorf("Add call %d: the caller received\n  %s\nbut the finders emitted (file names rewritten into the analysed package)\n  %s", i, strings.Join(got, "\n  "), strings.Join(want, "\n  "))
 		}
+		if late && !tracerHears && len(traced) > 0 {
+			return fmt.Errorf("Add call %d came without a tracer, yet a tracer (of another call) received\n  %s", i, strings.Join(traced, "\n  "))
+		}
 		if tracerHears && strings.Join(traced, "\n") != strings.Join(want, "\n") {
 			return fmt.Errorf("Add call %d: the tracer received\n  %s\nbut the finders emitted\n  %s", i, strings.Join(traced, "\n  "), strings.Join(want, "\n  "))
 		}
@@ -456,7 +469,7 @@ func checkDiagnostics(w world.World, tracer string) error {
 func TestPropDiagnostics(t *testing.T) {
 	ev.Check(t, subDiagnostics, func(t *rapid.T) DiagCase {
 		w := world.Gen(t, world.Config{MaxRemotes: 3, MaxRegistry: 1, NFinders: nFinders, Diags: true, ErrorDeps: rapid.Bool().Draw(t, "errors")})
-		tracer := rapid.SampledFrom([]string{"full", "full", "none", "partial:512", "partial:1535", "partial:73"}).Draw(t, "tracer")
+		tracer := rapid.SampledFrom([]string{"full", "full", "none", "partial:512", "partial:1535", "partial:73", "late", "early"}).Draw(t, "tracer")
 		// keep registry/relative errors out: this sub-check is about finder diagnostics
 		for pi := range w.Remotes {
 			for mi := range w.Remotes[pi].Modules {
